@@ -12,6 +12,10 @@ CONSTANTS
     MaxQ = 2
     InsertFirst = FALSE
     WithHold = FALSE
+    MaxLen = 9
+    BigOn = 3
+    ErrReadNeedsReply = TRUE
+    WithFault = FALSE
     EmptyOn = 2
     Hist = FALSE
 INVARIANT Inv
